@@ -308,6 +308,14 @@ def flood_session(rng, bt, with_reset):
         if i in full_at:
             s.ops.append("store records GET %s %s" % (param(rng.choice([None, str(cap()), str(cap() + 7)])), param(rng.choice(["json", "text"]))))
             s.valid_queries += 1
+            # ... and a full-window query DURING which further messages arrive (the response must be that of
+            # the store as it was; the store lock is what makes it so)
+            k = rng.choice([1, 3, 5])
+            s.ops.append("store recordsc GET %s %s %d" % (param(rng.choice([None, str(cap()), "10"])), param(rng.choice(["text", "text", "json"])), k))
+            s.valid_queries += 1
+            s.stored += k
+            s.max_arrivals += k
+            s.query(rng, small_body=True)
     s.ops.append("store reset GET")
     s.query(rng, small_body=True)
     s.reset(rng, force=True)
